@@ -9,11 +9,12 @@ in the result, the wire digest (sent bytes, receive-buffer sizes) or as `desync`
   c07 script <item>*        items:  S- | S!<Err>   send result
                                     R=<hex> | R!<Err>   receive result
                                     C- | C!<Err>   control request result
-  c07 open | close
+  c07 open | close | disable        (disable = disable_streaming)
   c07 read <addr> <n>
   c07 write <addr> <n> <patseed>
 -/
 import Driver.Control
+import CamVerif.Model.ControlStream
 namespace Driver.C07
 open CamVerif CamVerif.Control CamVerif.Wire Driver Driver.Ctl
 
@@ -44,6 +45,7 @@ def replayDev : Dev Replay where
 structure Sess where
   p : Profile
   st : St Replay
+  caches : Caches := Caches.empty
 
 def parseItem (s : String) : Option Item :=
   let cs := s.toList
@@ -82,6 +84,10 @@ def handle (os : Option Sess) (toks : List String) : Option Sess × String :=
     | none => (os, "bad-op")
   | some s, ["open"] =>
     let (s, a) := finish s («open» replayDev s.p s.st) (fun _ => "ok")
+    (some s, a)
+  | some s, ["disable"] =>
+    let (st, c, r) := disableStreaming replayDev s.p s.st s.caches
+    let (s, a) := finish { s with caches := c } (st, r) (fun _ => "ok")
     (some s, a)
   | some s, ["close"] =>
     let (s, a) := finish s (close replayDev s.st) (fun _ => "ok")
